@@ -3,6 +3,7 @@
      D:<h>.<p>.<w>,<h>.<p>.<w>,...;<prio h,h,...>;<pref h,h,...>
      L:<index>;<prio>;<pref>
    Functions:
+     (an optional token P:<h.p.w,...> before the events = preload_locked_blocks)
      run <anchor> <ev>...                 -> canonical trace for the given pop priorities / preferences
      member <anchor> <trace_> <ev>...     -> T iff <trace_> (spaces written as '_') is the trace of the history
                                              for SOME pop order of every batch (prio fields are ignored and
@@ -63,10 +64,15 @@ let canon_bc bc = { bc with bc_h2i = canon_dict bc.bc_h2i; bc_w = canon_dict bc.
 
 (* all traces over the wildcards: prio "*" = every pop order (every permutation of the batch's hashes; for a lock
    the rebuilt finder's nodes when there are at most 5), pref "*" = no preference or any single hash *)
-let all_traces anchor (evs : pev list) =
+(* an optional first token "P:<h.p.w,...>" = headers given to preload_locked_blocks right after construction *)
+let split_pre toks = match toks with
+  | t :: r when String.length t >= 2 && String.sub t 0 2 = "P:" ->
+    (List.map parse_hdr (split ',' (String.sub t 2 (String.length t - 2))), r)
+  | _ -> ([], toks)
+let all_traces anchor pre (evs : pev list) =
   let allh = dedup (List.concat_map (function PD (hs, _, _) -> List.map (fun x -> x.hh) hs | _ -> []) evs) in
   let finals = ref [] in
-  let states = ref [([], new_blockchain anchor)] in
+  let states = ref [([], preload_locked_blocks pre (new_blockchain anchor))] in
   List.iter (fun ev ->
     let next = ref [] in
     List.iter (fun (tr, bc) ->
@@ -92,12 +98,14 @@ let show_finder cf =
   ^ show_dict (show_list show_n) cf.tfb ^ ")"
 
 let dispatch f args = match f, args with
-  | "run", a :: evs -> show_trace (run (hx a) (List.map parse_event evs))
-  | "member", a :: t :: evs ->
-    let all = all_traces (hx a) (List.map parse_pev evs) in
+  | "run", a :: toks -> let (pre, evs) = split_pre toks in show_trace (run_pre (hx a) pre (List.map parse_event evs))
+  | "member", a :: t :: toks ->
+    let (pre, evs) = split_pre toks in
+    let all = all_traces (hx a) pre (List.map parse_pev evs) in
     let us = List.map (String.map (fun c -> if c = ' ' then '_' else c)) all in
     if List.mem t us then "T" else "F " ^ string_of_int (List.length all) ^ " " ^ String.concat " | " all
-  | "count", a :: evs -> string_of_int (List.length (all_traces (hx a) (List.map parse_pev evs)))
+  | "count", a :: toks -> let (pre, evs) = split_pre toks in
+    string_of_int (List.length (all_traces (hx a) pre (List.map parse_pev evs)))
   | "best_weight", [a; hs] -> show_z (c15_best_weight (List.map parse_hdr (split ',' hs)) (hx a))
   | "load", batches ->
     let rec go cf = function
